@@ -753,6 +753,34 @@ func (x *fnExec) execReturn(st *State, r *ssa.Return) {
 			c.vars[x.results[k]] = t
 		}
 	}
+	// ghost assignments at return (all right-hand sides are evaluated in the state before the first assignment)
+	if len(x.c.GhostSets) > 0 {
+		var vals []Term
+		for _, gs := range x.c.GhostSets {
+			t, err := x.evalIn(st, c, gs.E)
+			if err != nil {
+				fail("%s: ghost set %s: %v", x.fnName(), gs.Var, err)
+			}
+			vals = append(vals, t)
+		}
+		for k, gs := range x.c.GhostSets {
+			g, ok := x.v.cs.GhostVars[gs.Var]
+			if !ok {
+				fail("%s: ghost set of unknown ghost variable %s", x.fnName(), gs.Var)
+			}
+			_, gsort := x.v.resolveType(g.Type, x.pkg)
+			if gsort != vals[k].Sort {
+				fail("%s: ghost set %s: sort %s, want %s", x.fnName(), gs.Var, vals[k].Sort, gsort)
+			}
+			st.heapSet(x.v, "GH_"+gs.Var, gsort, vals[k].S)
+		}
+		c = x.ctx(st)
+		for k, rv := range r.Results {
+			if k < len(x.results) {
+				c.vars[x.results[k]] = x.val(st, rv)
+			}
+		}
+	}
 	for _, e := range x.c.Ensures {
 		g := x.evalClause(st, c, e)
 		x.emit(st, fmt.Sprintf("ensures.%s#%d", e.Label, ord), "ensures", e.Label, e.Props, g, e.Src)
@@ -762,6 +790,7 @@ func (x *fnExec) execReturn(st *State, r *ssa.Return) {
 
 type frameSpec struct {
 	all          bool
+	freshOnly    bool
 	allowedWhole map[string]bool
 	allowedLocs  map[string][]string
 }
@@ -775,6 +804,10 @@ func (x *fnExec) frameSpecOf(st *State) *frameSpec {
 		m = strings.TrimSpace(m)
 		if m == "*" {
 			fs.all = true
+			continue
+		}
+		if m == "fresh" {
+			fs.freshOnly = true
 			continue
 		}
 		single := x.modSingle(m, x.c, &cOld)
@@ -808,6 +841,7 @@ func (x *fnExec) frameGoal(fs *frameSpec, name, cur string) (string, bool) {
 	if cur == init {
 		return "", false
 	}
+	_ = fs.freshOnly // with `modifies fresh` unlisted arrays get exactly the generic goal below (old objects unchanged)
 	if strings.HasPrefix(hs, "(Array Int ") && !strings.HasPrefix(name, "GH_") && !strings.HasPrefix(name, "G_") {
 		conds := []string{"(> r!f 0)", "(< r!f " + x.entryAlloc + ")"}
 		for _, ref := range fs.allowedLocs[name] {
@@ -824,7 +858,7 @@ func (x *fnExec) checkFrame(st *State, ord int) {
 	if fs.all {
 		return
 	}
-	if st.epoch != 0 {
+	if st.unknownHavoc {
 		x.emit(st, fmt.Sprintf("frame.unknown-call#%d", ord), "frame", "unknown-call", nil, "false", "a call without contract may modify anything; modifies clause is not *")
 		return
 	}
